@@ -2,6 +2,7 @@
 (the clauses visible in the shape of the code)."""
 from __future__ import annotations
 import ast
+import re
 from .report import Report, AnalysisError
 from .summary import World, tape_reads, match_tables, _pattern_labels
 from .model import dotted
@@ -492,10 +493,17 @@ def run(w: World, rep: Report):
                                n.args[1].value if len(n.args) > 1 and isinstance(n.args[1], ast.Constant) else None,
                                n.lineno))
         why = ''
+        assigned = {}
+        for n in ast.walk(fi.node):
+            if isinstance(n, ast.Assign) and isinstance(n.targets[0], ast.Name):
+                assigned.setdefault(n.targets[0].id, []).append(ast.unparse(n.value))
+        guards_txt = [ast.unparse(n).replace(' ', '') for n in ast.walk(fi.node) if isinstance(n, ast.Compare)]
         for recv, k, order, line in widths:
-            is_len = 'len(' in recv or recv in ('def_size', 'except_len')
+            defs = assigned.get(recv, [])
+            is_len = 'len(' in recv or any('len(' in d or d == '0' for d in defs)
             is_op = 'opcodes_inverse' in recv
-            is_handle = recv == 'name'
+            is_handle = not is_len and not is_op and recv.isidentifier() and \
+                any(g == f'0<={recv}<256' for g in guards_txt)
             if order != 'big':
                 why = f'`{recv}.to_bytes` is not big-endian'
             if is_len and k != 2:
@@ -544,8 +552,20 @@ def _terminators(w: World, rep: Report, fi, endtok: str):
     if not loops:
         raise AnalysisError(f'{fi.key}: main loop not found')
     lp = loops[0]
-    idx_var = None
     found = 0
+    # the index variable is the one the loop condition compares with len(symbols); the current
+    # symbol is the local assigned symbols[index] at the top of the body
+    idx_var = None
+    if isinstance(lp.test, ast.Compare) and isinstance(lp.test.left, ast.Name):
+        idx_var = lp.test.left.id
+    cur_var = None
+    for st in lp.body:
+        if isinstance(st, ast.Assign) and isinstance(st.targets[0], ast.Name) and isinstance(st.value, ast.Subscript) \
+                and isinstance(st.value.slice, ast.Name) and st.value.slice.id == idx_var:
+            cur_var = st.targets[0].id
+            break
+    if idx_var is None or cur_var is None:
+        raise AnalysisError(f'{fi.key}: index / current-symbol variables of the main loop not recognised')
 
     def term_tokens(test):
         toks = set()
@@ -557,7 +577,7 @@ def _terminators(w: World, rep: Report, fi, endtok: str):
                     vals = [c.value]
                 elif isinstance(c, (ast.Tuple, ast.List, ast.Set)):
                     vals = [e.value for e in c.elts if isinstance(e, ast.Constant)]
-                if isinstance(n.left, ast.Name) and n.left.id == 'current_symbol':
+                if isinstance(n.left, ast.Name) and n.left.id == cur_var:
                     for v in vals:
                         if v in ('}', endtok):
                             toks.add(v)
@@ -572,7 +592,7 @@ def _terminators(w: World, rep: Report, fi, endtok: str):
             # all paths through this branch body: count of `index += k` before break/loop exit
             for tok in sorted(toks):
                 found += 1
-                advs = _advances(node.body)
+                advs = _advances(node.body, idx_var)
                 ok = advs == {1}
                 why = ''
                 if not ok:
@@ -590,7 +610,7 @@ def _terminators(w: World, rep: Report, fi, endtok: str):
         raise AnalysisError(f'{fi.key}: no terminator branch recognised')
 
 
-def _advances(stmts) -> set[int]:
+def _advances(stmts, idx_var='index') -> set[int]:
     """Possible total `index += k` amounts over the paths of a statement list (until break/continue)."""
     results = set()
 
@@ -600,10 +620,10 @@ def _advances(stmts) -> set[int]:
         for s in stmts:
             nxt = set()
             for a in cur:
-                if isinstance(s, ast.AugAssign) and isinstance(s.target, ast.Name) and s.target.id == 'index' \
+                if isinstance(s, ast.AugAssign) and isinstance(s.target, ast.Name) and s.target.id == idx_var \
                         and isinstance(s.op, ast.Add) and isinstance(s.value, ast.Constant):
                     nxt.add(a + s.value.value)
-                elif isinstance(s, ast.AugAssign) and isinstance(s.target, ast.Name) and s.target.id == 'index':
+                elif isinstance(s, ast.AugAssign) and isinstance(s.target, ast.Name) and s.target.id == idx_var:
                     nxt.add(a + 99)
                 elif isinstance(s, (ast.Break, ast.Continue, ast.Return)):
                     results.add(a)
@@ -623,11 +643,17 @@ def _push_partition(w: World, rep: Report):
     fi = w.repo.func('parsing', '_get_OP_PUSH_args')
     # find the if/elif chain over len(val)
     chain = None
+    vname = None
     for n in fi.node.body:
-        if isinstance(n, ast.If) and 'len(val)' in ast.unparse(n.test):
-            chain = n
+        if isinstance(n, ast.If):
+            m = re.match(r'^len\((\w+)\)', ast.unparse(n.test).replace(' ', '')) or \
+                re.search(r'len\((\w+)\)', ast.unparse(n.test))
+            if m:
+                chain = n
+                vname = m.group(1)
     if chain is None:
         raise AnalysisError('_get_OP_PUSH_args: size chain not found')
+    lenterm = f'len({vname})'
     arms = []
     node = chain
     neg = []
@@ -648,11 +674,11 @@ def _push_partition(w: World, rep: Report):
         raises = any(isinstance(s, ast.Raise) for s in body)
         for s in ast.walk(ast.Module(body=body, type_ignores=[])):
             if isinstance(s, ast.Call) and isinstance(s.func, ast.Attribute) and s.func.attr == 'to_bytes' and \
-                    'len(val)' in ast.unparse(s.func.value) and s.args and isinstance(s.args[0], ast.Constant):
+                    lenterm in ast.unparse(s.func.value) and s.args and isinstance(s.args[0], ast.Constant):
                 width = s.args[0].value
         # the interval of len(val) for which this arm is taken: evaluate over 0..70000 boundary points
         pts = [0, 1, 2, 3, 127, 128, 254, 255, 256, 257, 32767, 32768, 65534, 65535, 65536, 70000]
-        taken = [p for p in pts if _eval_len(cond, p)]
+        taken = [p for p in pts if _eval_len(cond, p, lenterm)]
         got.append((taken, width, raises, line))
     for (lo, hi), width in want:
         pts_in = [p for p in [0, 1, 2, 3, 127, 128, 254, 255, 256, 257, 32767, 32768, 65534, 65535, 65536, 70000]
@@ -661,7 +687,7 @@ def _push_partition(w: World, rep: Report):
         ok = len(arm) == 1
         rep.check('C11.R4', f'parsing._get_OP_PUSH_args|len in [{lo},{hi}]|prefix={width}', ok, file=RELP,
                   line=chain.lineno, why='' if ok else
-                  f'no arm taken exactly for len(val) in [{lo},{hi}] with a {width}-byte length prefix; arms: '
+                  f'no arm taken exactly for {lenterm} in [{lo},{hi}] with a {width}-byte length prefix; arms: '
                   f'{[(g[0][:1] + g[0][-1:], g[1], "raise" if g[2] else "") for g in got]}')
     rest = [g for g in got if g[2]]
     outside = [0, 65536, 70000]
@@ -681,14 +707,19 @@ def _push_partition(w: World, rep: Report):
                             and isinstance(x.slice, ast.Constant) and str(x.slice.value).startswith('OP_PUSH'):
                         sel[t] = x.slice.value
                 node = node.orelse[0] if len(node.orelse) == 1 and isinstance(node.orelse[0], ast.If) else None
-    want_sel = {'len(args)<2': 'OP_PUSH0', 'len(args[0])==1': 'OP_PUSH1', 'len(args[0])==2': 'OP_PUSH2'}
+    aname = 'args'
+    for n in ast.walk(pn.node):
+        if isinstance(n, ast.Assign) and isinstance(n.value, ast.Call) and dotted(n.value.func) == 'get_args' and \
+                isinstance(n.targets[0], ast.Tuple) and len(n.targets[0].elts) == 2:
+            aname = n.targets[0].elts[1].id
+    want_sel = {f'len({aname})<2': 'OP_PUSH0', f'len({aname}[0])==1': 'OP_PUSH1', f'len({aname}[0])==2': 'OP_PUSH2'}
     ok = all(sel.get(k) == v for k, v in want_sel.items())
     rep.check('C11.R4', 'parsing.parse_next|push-opcode-selection', ok, file=RELP, line=pn.node.lineno,
               why='' if ok else f'PUSH opcode selection is {sel}, expected {want_sel}')
 
 
-def _eval_len(f, p: int) -> bool:
-    """Evaluate a formula whose only term is len(val) at len(val) = p."""
+def _eval_len(f, p: int, lenterm: str = 'len(val)') -> bool:
+    """Evaluate a formula whose only term is len(<value>) at that length = p."""
     def ev(g):
         if g[0] == 'const':
             return g[1]
@@ -698,7 +729,7 @@ def _eval_len(f, p: int) -> bool:
                 raise AnalysisError('push partition: opaque condition')
             total = k[2]
             for term, coef in k[1]:
-                if term != 'len(val)':
+                if term != lenterm:
                     raise AnalysisError(f'push partition: unexpected term {term}')
                 total += coef * p
             v = total >= 0
